@@ -33,29 +33,29 @@ type KV struct {
 
 // Rec is one invoke/return record of the history.
 type Rec struct {
-	Client  int    `json:"c"`
-	Idx     int    `json:"i"`
-	Op      Op     `json:"op"`
-	RevAbs  uint64 `json:"rev_abs"` // resolved revision argument
-	Inv     uint64 `json:"inv"`
-	Ret     uint64 `json:"ret"`
-	Done    bool   `json:"done"`
-	Err     string `json:"err,omitempty"`
-	OK      bool   `json:"ok"`
-	Hdr     uint64 `json:"hdr"`
-	KV      *KV    `json:"kv,omitempty"`
-	KVs     []KV   `json:"kvs,omitempty"`
-	More    bool   `json:"more,omitempty"`
-	Count   uint64 `json:"count,omitempty"`
-	ComInv  uint64 `json:"com_inv"` // committed revision sampled at invoke
-	ComRet  uint64 `json:"com_ret"`
-	Task    string `json:"task"`
-	Batches []Batch `json:"batches,omitempty"` // stream
-	PartKeys []string `json:"part_keys,omitempty"`
-	Streams [][]Batch `json:"streams,omitempty"`
-	Node    int    `json:"node"`
-	InvMs   int64  `json:"inv_ms"`
-	RetMs   int64  `json:"ret_ms"`
+	Client   int       `json:"c"`
+	Idx      int       `json:"i"`
+	Op       Op        `json:"op"`
+	RevAbs   uint64    `json:"rev_abs"` // resolved revision argument
+	Inv      uint64    `json:"inv"`
+	Ret      uint64    `json:"ret"`
+	Done     bool      `json:"done"`
+	Err      string    `json:"err,omitempty"`
+	OK       bool      `json:"ok"`
+	Hdr      uint64    `json:"hdr"`
+	KV       *KV       `json:"kv,omitempty"`
+	KVs      []KV      `json:"kvs,omitempty"`
+	More     bool      `json:"more,omitempty"`
+	Count    uint64    `json:"count,omitempty"`
+	ComInv   uint64    `json:"com_inv"` // committed revision sampled at invoke
+	ComRet   uint64    `json:"com_ret"`
+	Task     string    `json:"task"`
+	Batches  []Batch   `json:"batches,omitempty"` // stream
+	PartKeys []string  `json:"part_keys,omitempty"`
+	Streams  [][]Batch `json:"streams,omitempty"`
+	Node     int       `json:"node"`
+	InvMs    int64     `json:"inv_ms"`
+	RetMs    int64     `json:"ret_ms"`
 }
 
 // Batch is one message of a streamed range.
@@ -79,74 +79,75 @@ type Ev struct {
 
 // Watcher is one watch as seen by its consumer.
 type Watcher struct {
-	ID        int
-	Client    int
-	Node      int
-	Prefix    string
-	Start     uint64
-	RegInv    uint64
-	RegRet    uint64
-	ComAtRet  uint64 // committed revision sampled when Watch returned
-	ComAtInv  uint64
-	Refused   string
-	Ch        <-chan []*proto.Event
-	Cancel    context.CancelFunc
-	Events    []Ev
-	Batches   int
-	Closed    bool
-	ClosedAt  uint64
-	Canceled  bool
-	Consume   string
-	stop      bool
+	ID       int
+	Client   int
+	Node     int
+	Prefix   string
+	Start    uint64
+	RegInv   uint64
+	RegRet   uint64
+	ComAtRet uint64 // committed revision sampled when Watch returned
+	ComAtInv uint64
+	Refused  string
+	Ch       <-chan []*proto.Event
+	Cancel   context.CancelFunc
+	Events   []Ev
+	Batches  int
+	Closed   bool
+	ClosedAt uint64
+	Canceled bool
+	Consume  string
+	stop     bool
 }
 
 // Node is one KubeBrain node.
 type Node struct {
-	ID      int
-	B       backend.Backend
-	H       *simkv.Handle
-	M       *RecMetrics
-	Cfg     backend.Config
-	Dead    bool
+	ID   int
+	B    backend.Backend
+	H    *simkv.Handle
+	M    *RecMetrics
+	Cfg  backend.Config
+	Dead bool
 }
 
 // World is one simulated run.
 type World struct {
-	Sc       *Scenario
-	S        *rt.Sched
-	KV       *simkv.World
-	Nodes    []*Node
-	Recs     []*Rec
-	Watchers []*Watcher
-	ComSamples []uint64 // committed revision of node 0 after every step (index = step)
+	Sc              *Scenario
+	S               *rt.Sched
+	KV              *simkv.World
+	Nodes           []*Node
+	Recs            []*Rec
+	Watchers        []*Watcher
+	ComSamples      []uint64 // committed revision of node 0 after every step (index = step)
 	SampleCommitted bool
-	done     int
-	started  bool
-	proDone  bool
-	Stuck    bool
-	StuckWhy string
-	lastProgress time.Duration
-	tmpDir   string
-	closers  []func()
-	clients  []*clientState
-	OnStep   func(step uint64)
-	progressMark int
-	doneRecs int
-	probe    *clientState
-	inflight map[string]*Rec
-	probeIdx int
-	probeW   int
+	done            int
+	started         bool
+	proDone         bool
+	Stuck           bool
+	StuckWhy        string
+	lastProgress    time.Duration
+	tmpDir          string
+	closers         []func()
+	clients         []*clientState
+	OnStep          func(step uint64)
+	progressMark    int
+	doneRecs        int
+	probe           *clientState
+	Panics          []string
+	inflight        map[string]*Rec
+	probeIdx        int
+	probeW          int
 }
 
 type clientState struct {
-	id      int
-	known   map[string][]uint64
-	tomb    map[string]uint64
-	lastHdr uint64
-	maxSeen uint64
-	task    *rt.Task
-	finished bool
-	busyNode int
+	id         int
+	known      map[string][]uint64
+	tomb       map[string]uint64
+	lastHdr    uint64
+	maxSeen    uint64
+	task       *rt.Task
+	finished   bool
+	busyNode   int
 	sleepUntil time.Duration
 }
 
@@ -220,7 +221,9 @@ func New(sc *Scenario) (*World, error) {
 			b, _ := hex.DecodeString(p)
 			borders = append(borders, b)
 		}
-		w.KV.Parts = func(start, end []byte) []storage.Partition { return cutPartitions(start, end, borders, sc.Extra["parts_shuffle"]) }
+		w.KV.Parts = func(start, end []byte) []storage.Partition {
+			return cutPartitions(start, end, borders, sc.Extra["parts_shuffle"])
+		}
 	}
 	s.StepHook = func(step uint64, t *rt.Task) {
 		if w.SampleCommitted && len(w.Nodes) > 0 {
